@@ -62,7 +62,7 @@ func total(rt statedb.ReadTxn, tabs []statedb.RWTable[*concw.Row]) int64 {
 	return sum
 }
 
-func pausedCommit(ctl *hookctl.Ctl, idx int, point string, ntab int) (key, msg string, reached bool) {
+func pausedCommit(ctl *hookctl.Ctl, idx int, point string, ntab int, withNewTable bool) (key, msg string, reached bool) {
 	db := statedb.New()
 	tabs := concw.NewTables(db, "p", ntab)
 	// initial state: one account row per table with 100 units
@@ -144,6 +144,19 @@ func pausedCommit(ctl *hookctl.Ctl, idx int, point string, ntab int) (key, msg s
 		}
 	}
 	reached = true
+	// optionally a table registration runs into the paused commit (it queues on the root lock at commit.rootLocked)
+	regDone := make(chan error, 1)
+	if withNewTable {
+		hN := fmt.Sprintf("PN%d", idx)
+		go func() {
+			_, err := statedb.NewTable(db.NewHandle(hN), "late", concw.IDIndex)
+			regDone <- err
+		}()
+		for i := 0; i < 2000 && ctl.At(hN) != "register.beforeLock" && len(regDone) == 0; i++ {
+			time.Sleep(50 * time.Microsecond)
+		}
+		time.Sleep(300 * time.Microsecond)
+	}
 	// snapshot from a second goroutine
 	type obs struct {
 		cnt   []int
@@ -175,6 +188,16 @@ func pausedCommit(ctl *hookctl.Ctl, idx int, point string, ntab int) (key, msg s
 	finish()
 	if !waitCh(doneW) {
 		return "stuck/" + point, "writer did not finish after resume", true
+	}
+	if withNewTable {
+		select {
+		case err := <-regDone:
+			if err != nil {
+				return "newtable-error/" + point, err.Error(), true
+			}
+		case <-time.After(long):
+			return "stuck/newtable/" + point, "NewTable did not finish after the writer finished", true
+		}
 	}
 	final := tagged(db.ReadTxn(), tabs, tag)
 	wantFinal := 1
@@ -218,11 +241,15 @@ func TestVerif_PausedCommit(t *testing.T) {
 				continue // fail fast: every stuck probe costs its full timeout
 			}
 			r.LogCase(idx)
-			key, msg, reached := pausedCommit(ctl, idx, p, ntab)
+			withNewTable := r.Rand(idx, 5).IntN(3) == 0
+			key, msg, reached := pausedCommit(ctl, idx, p, ntab, withNewTable)
 			if reached {
 				r.Count("pause_points_reached", 1)
 			}
 			r.Seen("points", p)
+			if withNewTable {
+				r.Count("with_concurrent_registration", 1)
+			}
 			r.Case(vkit.NewHash().Str(p).Int(int64(ntab)).Int(int64(round)).Sum(), reached)
 			if key != "" {
 				r.Violation(key, idx, map[string]any{"point": p, "tables": ntab, "message": msg})
